@@ -20,6 +20,9 @@ pub enum Op {
     InFlow { dc: Option<u32>, echo: bool },
     Arrive { more: bool, aborted: bool },
     Recv,
+    /// `recv::<String>()` on a delivery whose body is a binary: the delivery cannot be decoded as what the
+    /// application asked for, is reported as such, and has been received all the same
+    RecvWrong,
     Dispose(u32),
     SetCredit(u32),
     Drain,
@@ -48,6 +51,7 @@ impl Op {
             Op::InFlow { dc, echo } => format!("R inflow {} {}", o(*dc), *echo as u8),
             Op::Arrive { more, aborted } => format!("R arrive {} {}", *more as u8, *aborted as u8),
             Op::Recv => "R recv".into(),
+            Op::RecvWrong => "R recvbad".into(),
             Op::Dispose(k) => format!("R dispose {}", k),
             Op::SetCredit(c) => format!("R setcredit {}", c),
             Op::Drain => "R drain".into(),
@@ -81,6 +85,7 @@ impl Case {
                 ["R", "inflow", a, b] => Op::InFlow { dc: if num(a)? < 0 { None } else { Some(num(a)? as u32) }, echo: *b == "1" },
                 ["R", "arrive", a, b] => Op::Arrive { more: *a == "1", aborted: *b == "1" },
                 ["R", "recv"] => Op::Recv,
+                ["R", "recvbad"] => Op::RecvWrong,
                 ["R", "dispose", k] => Op::Dispose(num(k)? as u32),
                 ["R", "setcredit", c] => Op::SetCredit(num(c)? as u32),
                 ["R", "drain"] => Op::Drain,
@@ -239,6 +244,19 @@ pub fn run_impl(case: &Case) -> Result<Vec<StepOut>, String> {
                         Ok(Err(e)) => event = Some(format!("X {:?}", e).replace(' ', "_")),
                     }
                 }
+                Op::RecvWrong => {
+                    match tokio::time::timeout(Duration::from_millis(50), receiver.recv::<String>()).await {
+                        Err(_) => event = Some("N".to_string()),
+                        Ok(Ok(_)) => event = Some("X_a_binary_body_decoded_as_a_string".to_string()),
+                        Ok(Err(RecvError::MessageDecode(e))) => {
+                            // the error carries what the application needs to dispose of the delivery
+                            undisposed.push(e.info);
+                            event = Some("M".to_string());
+                        }
+                        Ok(Err(RecvError::TransferLimitExceeded)) => event = Some("L".to_string()),
+                        Ok(Err(e)) => event = Some(format!("X {:?}", e).replace(' ', "_")),
+                    }
+                }
                 Op::Dispose(k) => {
                     let k = (*k as usize).min(undisposed.len());
                     if k == 1 {
@@ -367,6 +385,32 @@ pub fn check_property(case: &Case, outs: &[StepOut]) -> Option<(String, String)>
                 }
                 other => return Some(("recv-error".into(), format!("op {}: {:?}", i, other))),
             },
+            Op::RecvWrong => match o.event.as_deref() {
+                Some("M") => {
+                    if queued == 0 {
+                        return Some(("delivery-from-nothing".into(), format!("op {}: a decode error was reported although no delivery was complete", i)));
+                    }
+                    if credit_spec == 0 {
+                        return Some(("accepted-beyond-credit".into(), format!("op {}: delivery handed out although all issued credit was used", i)));
+                    }
+                    // received, though the application could not read it: it has used a credit
+                    credit_spec -= 1;
+                    queued -= 1;
+                    undisposed += 1;
+                }
+                Some("L") => {
+                    if credit_spec > 0 {
+                        return Some(("rejected-within-credit".into(), format!("op {}: transfer-limit-exceeded with {} credit left", i, credit_spec)));
+                    }
+                    return None;
+                }
+                Some("N") => {
+                    if queued > 0 {
+                        return Some(("delivery-withheld".into(), format!("op {}: recv returned nothing with {} complete deliveries queued", i, queued)));
+                    }
+                }
+                other => return Some(("recv-error".into(), format!("op {}: {:?}", i, other))),
+            },
             Op::Dispose(k) => {
                 undisposed = undisposed.saturating_sub(*k);
             }
@@ -471,7 +515,7 @@ pub fn gen_case(rng: &mut Rng, max_ops: u64) -> Case {
                 credit_guess -= 1;
             }
         } else if r < 62 {
-            ops.push(Op::Recv);
+            ops.push(if rng.chance(1, 5) { Op::RecvWrong } else { Op::Recv });
             if received < sent {
                 received += 1;
                 undisposed += 1;
@@ -723,6 +767,7 @@ pub fn main(opts: &Opts) {
                 Op::Arrive { more: true, .. } => "op_arrive_more",
                 Op::Arrive { .. } => "op_arrive_last",
                 Op::Recv => "op_recv",
+                Op::RecvWrong => "op_recv_undecodable",
                 Op::Dispose(1) => "op_dispose_one",
                 Op::Dispose(_) => "op_dispose_batch",
                 Op::SetCredit(_) => "op_set_credit",
